@@ -96,12 +96,15 @@ type c03AnyPlan struct {
 	K string `json:"k"`
 	I int    `json:"i,omitempty"`
 	L []int  `json:"l,omitempty"`
+	C int    `json:"c,omitempty"` // slice: spare capacity beyond len(L)
 }
 
 type c03NodePlan struct {
 	Next   int        `json:"next"` // family A only; -1 nil
 	Kids   []int      `json:"kids"` // nil => nil slice; -1 => nil element
 	Hidden []int      `json:"hidden,omitempty"`
+	Spare  int        `json:"spare,omitempty"`  // Kids: extra (zero) capacity; Kids=[] with Spare>0 is make([]*node, 0, Spare)
+	PSpare int        `json:"pspare,omitempty"` // Pairs: extra capacity
 	Pair   [2]int     `json:"pair"`
 	Pairs  [][2]int   `json:"pairs,omitempty"` // family B only
 	M      int        `json:"m"`               // index into Maps, -1 nil
@@ -119,6 +122,7 @@ type c03Plan struct {
 	MMaps   []map[string]int        `json:"mmaps,omitempty"`   // map[string]map[string]*node objects: key -> Maps index
 	AMaps   []map[string]c03AnyPlan `json:"amaps,omitempty"`   // map[string]any objects
 	ASlices [][]c03AnyPlan          `json:"aslices,omitempty"` // []any objects
+	ASpare  []int                   `json:"aspare,omitempty"`  // spare capacity of each []any object
 }
 
 // c03Built is a materialised plan.
@@ -174,8 +178,12 @@ func c03Build(p *c03Plan) *c03Built {
 	for range p.AMaps {
 		b.amaps = append(b.amaps, map[string]any{})
 	}
-	for _, s := range p.ASlices {
-		b.aslices = append(b.aslices, make([]any, len(s)))
+	for i, s := range p.ASlices {
+		spare := 0
+		if i < len(p.ASpare) {
+			spare = p.ASpare[i]
+		}
+		b.aslices = append(b.aslices, make([]any, len(s), len(s)+spare))
 	}
 	for mi, m := range p.Maps {
 		for _, k := range c03SortedKeys(m) {
@@ -198,7 +206,7 @@ func c03Build(p *c03Plan) *c03Built {
 			n.Field(f.fNext).Set(b.nodeOrNil(np.Next))
 		}
 		if np.Kids != nil {
-			s := reflect.MakeSlice(f.slice, len(np.Kids)+len(np.Hidden), len(np.Kids)+len(np.Hidden))
+			s := reflect.MakeSlice(f.slice, len(np.Kids)+len(np.Hidden), len(np.Kids)+len(np.Hidden)+np.Spare)
 			for j, k := range np.Kids {
 				s.Index(j).Set(b.nodeOrNil(k))
 			}
@@ -211,7 +219,7 @@ func c03Build(p *c03Plan) *c03Built {
 			n.Field(f.fPair).Index(j).Set(b.nodeOrNil(np.Pair[j]))
 		}
 		if f.hasPairs && np.Pairs != nil {
-			s := reflect.MakeSlice(f.arrSlice, len(np.Pairs), len(np.Pairs))
+			s := reflect.MakeSlice(f.arrSlice, len(np.Pairs), len(np.Pairs)+np.PSpare)
 			for j, pr := range np.Pairs {
 				s.Index(j).Index(0).Set(b.nodeOrNil(pr[0]))
 				s.Index(j).Index(1).Set(b.nodeOrNil(pr[1]))
@@ -275,7 +283,7 @@ func (b *c03Built) anyValue(a *c03AnyPlan) any {
 		}
 		return b.nodes[a.I].Elem().Interface()
 	case "slice":
-		s := reflect.MakeSlice(f.slice, len(a.L), len(a.L))
+		s := reflect.MakeSlice(f.slice, len(a.L), len(a.L)+a.C)
 		for j, k := range a.L {
 			s.Index(j).Set(b.nodeOrNil(k))
 		}
@@ -383,6 +391,7 @@ func c03GenAny(r *fw.Rand, p *c03Plan, n int, asliceBelow int) c03AnyPlan {
 		if l >= 2 && r.Chance(40) {
 			a.L[1] = a.L[0]
 		}
+		a.C = c03GenSpare(r, l)
 	case "arr":
 		a.L = []int{r.Intn(n+1) - 1, r.Intn(n+1) - 1}
 	case "map":
@@ -399,6 +408,21 @@ func c03GenAny(r *fw.Rand, p *c03Plan, n int, asliceBelow int) c03AnyPlan {
 		a.I = r.Intn(5)
 	}
 	return a
+}
+
+// c03GenSpare draws the spare capacity of a slice of length l: zero-length
+// slices mostly get a real backing array (make([]T, 0, n)).
+func c03GenSpare(r *fw.Rand, l int) int {
+	if l == 0 {
+		if r.Chance(60) {
+			return r.Range(1, 4)
+		}
+		return 0
+	}
+	if r.Chance(10) {
+		return r.Range(1, 3)
+	}
+	return 0
 }
 
 // c03GenPlan draws a random graph plan. []any objects only reference []any
@@ -468,6 +492,7 @@ func c03GenPlan(r *fw.Rand, fam string, o c03GenOpts) *c03Plan {
 			if l >= 2 && r.Chance(30) {
 				np.Kids[l-1] = np.Kids[0]
 			}
+			np.Spare = c03GenSpare(r, l)
 			if r.Chance(6) {
 				for j := r.Range(1, 2); j > 0; j-- {
 					np.Hidden = append(np.Hidden, r.Intn(n))
@@ -480,9 +505,13 @@ func c03GenPlan(r *fw.Rand, fam string, o c03GenOpts) *c03Plan {
 			}
 		}
 		if fam == "B" && r.Chance(density) {
-			for j := r.Range(1, 2); j > 0; j-- {
-				np.Pairs = append(np.Pairs, [2]int{pick(), pick()})
+			np.Pairs = [][2]int{}
+			if !r.Chance(20) {
+				for j := r.Range(1, 2); j > 0; j-- {
+					np.Pairs = append(np.Pairs, [2]int{pick(), pick()})
+				}
 			}
+			np.PSpare = c03GenSpare(r, len(np.Pairs))
 		}
 		if len(p.Maps) > 0 && r.Chance(density+10) {
 			np.M = r.Intn(len(p.Maps))
@@ -520,6 +549,7 @@ func c03GenPlan(r *fw.Rand, fam string, o c03GenOpts) *c03Plan {
 			s[j] = c03GenAny(r, p, n, i) // only []any objects with a smaller index
 		}
 		p.ASlices[i] = s
+		p.ASpare = append(p.ASpare, c03GenSpare(r, l))
 	}
 	return p
 }
